@@ -23,6 +23,26 @@ def _nq():
 
 
 # --------------------------------------------------------------------------------------------- partial trace
+LAYOUTS = ['C', 'F', 'view_of_transpose', 'strided', 'readonly']
+
+
+def _with_layout(a, layout):
+    """the same operator (equal values) in a different memory layout"""
+    if layout == 'F':
+        return np.asfortranarray(a)
+    if layout == 'view_of_transpose':
+        return np.ascontiguousarray(a.T).T
+    if layout == 'strided':
+        big = np.zeros((2 * a.shape[0], 3 * a.shape[1]), dtype=a.dtype)
+        big[::2, 1::3] = a
+        return big[::2, 1::3]
+    if layout == 'readonly':
+        b = a.copy()
+        b.flags.writeable = False
+        return b
+    return np.ascontiguousarray(a)
+
+
 @st.composite
 def _strat_pt(draw, tier='quick'):
     n = draw(st.integers(2, 5))
@@ -33,7 +53,7 @@ def _strat_pt(draw, tier='quick'):
         d = draw(st.sampled_from(choices))
         dims.append(d)
         prod *= d
-    return dict(dims=dims, kind=draw(st.sampled_from(['complex', 'dm', 'product'])), prng=draw(st.integers(0, 2 ** 31)))
+    return dict(dims=dims, kind=draw(st.sampled_from(['complex', 'dm', 'product'])), layout=draw(st.sampled_from(LAYOUTS)), prng=draw(st.integers(0, 2 ** 31)))
 
 
 def run_pt(ctx, case):
@@ -42,7 +62,8 @@ def run_pt(ctx, case):
     n = len(dims)
     D = int(np.prod(dims))
     r = ref.rng(case['prng'])
-    ctx.note(klass=f'n={n}', desc=[dims, kind], nontrivial=(n >= 3), labels=[f'n={n}', kind, 'unequal' if len(set(dims)) > 1 else 'equal'])
+    layout = case.get('layout', 'C')
+    ctx.note(klass=f'n={n}', desc=[dims, kind, layout], nontrivial=(n >= 3), labels=[f'n={n}', kind, 'unequal' if len(set(dims)) > 1 else 'equal', 'layout=' + layout])
     if kind == 'complex':
         rho = ref.rand_complex(r, D, D)
     elif kind == 'dm':
@@ -50,6 +71,8 @@ def run_pt(ctx, case):
     else:
         parts = [ref.rand_dm(r, d) for d in dims]
         rho = ref.kron(*parts)
+    rho = _with_layout(rho, layout)  # same values; the reference below never looks at strides (it indexes element-wise or via reshape of a C copy)
+    rho_c = np.ascontiguousarray(rho)
     tr = np.trace(rho)
     subsets = [s for k in range(1, n + 1) for s in itertools.combinations(range(n), k)]
     results = {}
@@ -63,15 +86,15 @@ def run_pt(ctx, case):
             arg = tuple(keep)
         else:
             arg = keep[0] if len(keep) == 1 else set(keep)
-        inp = rho.reshape(dims + dims) if (j % 2 == 0) else rho
+        inp = rho_c.reshape(dims + dims) if (j % 2 == 0) else rho
         inp_before = inp.copy()
         out = nq.utils.partial_trace(inp, tuple(dims), arg)
         ctx.close(inp, inp_before, 0, 'partial_trace does not modify its input')
         K = int(np.prod([dims[i] for i in keep]))
         ctx.require(out.shape == (K, K), 'partial trace shape', f'{dims} keep={keep}: {out.shape}')
-        want = ref.partial_trace_fast(rho, dims, keep)
+        want = ref.partial_trace_fast(rho_c, dims, keep)
         if D * K <= 4096:
-            want2 = ref.partial_trace(rho, dims, keep)
+            want2 = ref.partial_trace(rho_c, dims, keep)
             if np.abs(want - want2).max() > 1e-10 * max(1, np.abs(rho).max()):
                 from ..core import HarnessError
                 raise HarnessError('reference partial traces disagree')
@@ -109,6 +132,10 @@ def run_dicke_basis(ctx, case):
     ctx.require(len(klist) == cnt and nq.dicke.get_dicke_number(k, d) == cnt, 'number of Dicke states = C(k+d-1,d-1)', f'{len(klist)} vs {cnt}')
     ctx.require(set(tuple(int(v) for v in x) for x in klist) == set(ref.compositions(k, d)) and len(set(map(tuple, klist))) == cnt,
                 'klist = all occupation tuples once')
+    FRESH = 'a second call is not affected by editing the array returned by the first'
+    ctx.fresh(lambda: nq.dicke.get_dicke_basis(k, d), FRESH + ' (get_dicke_basis)')
+    for x in klist[:3]:
+        ctx.fresh(lambda: nq.dicke.Dicke(*x), FRESH + ' (Dicke)')
     B = nq.dicke.get_dicke_basis(k, d)
     ctx.require(B.shape == (cnt, d ** k), 'basis shape', f'{B.shape}')
     want = np.stack([ref.dicke_vector(x, d) for x in klist])
@@ -148,7 +175,7 @@ def _strat_abk(draw, tier='quick'):
     ks = [k for k in range(1, 6) if dA * dB ** k <= cap]
     k = draw(st.sampled_from(ks))
     return dict(dA=dA, dB=dB, k=k, backend=draw(st.sampled_from(['numpy', 'torch'])), kind=draw(st.sampled_from(['complex', 'real', 'single'])),
-                prng=draw(st.integers(0, 2 ** 31)))
+                norm=draw(st.sampled_from([1.0, 1.0, 0.5, 3.0])), prng=draw(st.integers(0, 2 ** 31)))
 
 
 def _explicit_reduce(psi, dA, dB, k, klist):
@@ -176,7 +203,11 @@ def run_abk(ctx, case):
         psi = np.zeros((dA, nd), dtype=np.complex128)
         psi[int(r.integers(0, dA)), int(r.integers(0, nd))] = 1
         psi[int(r.integers(0, dA)), int(r.integers(0, nd))] += 1j
-    psi = psi / np.linalg.norm(psi)
+    norm = case.get('norm', 1.0)  # the reduction is the quadratic map psi -> Tr_{k-1}|psi><psi| for EVERY vector, not only unit vectors
+    psi = psi / np.linalg.norm(psi) * norm
+    psi_before = psi.copy()
+    if norm != 1.0:
+        ctx.label('non-unit norm')
     Bij = nq.dicke.get_partial_trace_ABk_to_AB_index(k, dB)
     ctx.require(len(Bij) == dB * dB, 'index list has dimB^2 entries')
     if backend == 'torch':
@@ -187,9 +218,9 @@ def run_abk(ctx, case):
         out = nq.dicke.partial_trace_ABk_to_AB(psi, Bij)
     want = _explicit_reduce(psi, dA, dB, k, klist)
     ctx.require(tuple(out.shape) == (dA * dB, dA * dB), 'reduced matrix shape')
-    ctx.close(np.linalg.norm(psi), 1, 1e-12, 'fast reduction does not modify the state vector')
-    ctx.close(out, want, 1e-12, 'fast reduction = embed with the Dicke basis and trace k-1 copies')
-    ctx.close(np.trace(np.asarray(out)), 1, 1e-12, 'unit trace')
+    ctx.close(psi, psi_before, 0, 'fast reduction does not modify the state vector')
+    ctx.close(out, want, 1e-12, 'fast reduction = embed with the Dicke basis and trace k-1 copies', norm ** 2)
+    ctx.close(np.trace(np.asarray(out)), norm ** 2, 1e-12, 'trace of the reduction = squared norm of the vector (unit trace for states)', norm ** 2)
     # tensor form
     Brsab = nq.dicke.get_partial_trace_ABk_to_AB_index(k, dB, return_tensor=True)
     basis = np.stack([ref.dicke_vector(x, dB) for x in klist]).reshape(nd, dB, -1)
@@ -232,8 +263,8 @@ def run_pureb(ctx, case):
 
 
 SUBCHECKS = [
-    SubCheck('partial_trace', run_pt, strategy=_strat_pt, examples=(150, 600), shards=(3, 16), floors={'n=3': 0.1}),
+    SubCheck('partial_trace', run_pt, strategy=_strat_pt, examples=(150, 600), shards=(3, 16), floors={'n=3': 0.1, 'layout=F': 0.1, 'layout=strided': 0.1}),
     SubCheck('dicke_basis', run_dicke_basis, cases=cases_dicke_basis, shards=(4, 8)),
-    SubCheck('abk_reduce', run_abk, strategy=_strat_abk, examples=(150, 600), shards=(3, 16), floors={'torch': 0.3}),
+    SubCheck('abk_reduce', run_abk, strategy=_strat_abk, examples=(150, 600), shards=(3, 16), floors={'torch': 0.3, 'non-unit norm': 0.3}),
     SubCheck('pureb_dm', run_pureb, strategy=_strat_pureb, examples=(80, 400), shards=(1, 8)),
 ]
